@@ -3,7 +3,7 @@ from .. import roles
 from ..callgraph import CallGraph
 from ..cfg import DefIndex, dominators, natural_loops, reachable
 from ..facts import KIND, callee, place_fields
-from ..rules import belief, guards
+from ..rules import belief, chainwalk, guards
 from ..rules.cursor import ParserModel
 from ..symex import PathLimit, SymEx
 
@@ -311,6 +311,7 @@ def run(ck, facts, tier):
     belief.run(ck, R, facts, cg, roots, "front-end")
     rule_errors_as_values(ck, facts, cg)
     rule_occurs(ck, facts)
+    chainwalk.run(ck, facts, "C04.chain-walk", ["mimium_lang"])
     from . import c03
 
     c03.rule_admission(ck, facts)
